@@ -126,7 +126,7 @@ Definition tinit_range (lo k : nat) : TG :=
 Definition tinit_cfg (fuel k : nat) (ths : list (list op * list nat)) : Conc.config TG TV ev :=
   Conc.Cfg (tinit k) (map (fun th => tthread_prog fuel (fst th) (snd th)) ths) [].
 
-(** cfg as in LV.Model.FreeList.run_case (variant 1) *)
+(** cfg as in LV.Model.FreeList.fl_run_case (variant 1) *)
 Definition trun_case (cfg : list Z) (ths : list (list (list Z))) (sched : list nat) (fuel : nat)
   : list (nat * ev) * bool :=
   let lfuel := Z.to_nat (nth 1 cfg 100) in
